@@ -530,11 +530,15 @@ def run_check(pid, cfg, tier, seed, replay):
         if okp:
             names, axioms, bad_ax, missing, alog, arc = audit(pid, module)
         forb = forbidden_scan()
-        # independent re-check of the compiled theorem module by leanchecker (thorough tier, or VERIF_LEANCHECKER=1)
+        # independent re-check of the compiled theorem module by leanchecker (every run; VERIF_LEANCHECKER=0 turns it off)
         lc = None
-        if okp and (tier == "thorough" or os.environ.get("VERIF_LEANCHECKER") == "1") and not replay:
-            lrc, llog, ldt = sh(["lake", "env", "leanchecker", module], cwd=LEAN, timeout=3600)
-            lc = {"module": module, "exit": lrc, "wall_s": round(ldt, 1), "log_tail": llog[-500:]}
+        import shutil
+        if okp and os.environ.get("VERIF_LEANCHECKER", "1") != "0" and not replay and shutil.which("leanchecker"):
+            try:
+                lrc, llog, ldt = sh(["lake", "env", "leanchecker", module], cwd=LEAN, timeout=900 if tier == "quick" else 3600)
+                lc = {"module": module, "exit": lrc, "wall_s": round(ldt, 1), "log_tail": (llog or "")[-500:]}
+            except Exception as e:  # a re-checker that cannot be run (time-out, missing tool) is a note, not a verdict
+                notes.append("leanchecker could not be run: " + str(e)[:200])
     obligations = len(names) if okp else len(theorem_names(os.path.join(LEAN, *module.split(".")) + ".lean"))
     discharged = len([n for n in names if n in axioms and n not in bad_ax]) if okp else 0
     cov.update({
@@ -546,6 +550,8 @@ def run_check(pid, cfg, tier, seed, replay):
     })
     if lc is not None:
         cov["leanchecker"] = lc
+        if lc["exit"] == 0:
+            cov["trusted_base"].append("compiled theorem module re-checked by leanchecker (Lean 4.33.0's independent re-checker of .olean files) on this run")
     proof_broken = None
     if lc is not None and lc["exit"] != 0:
         proof_broken = "leanchecker rejects the compiled theorem module: " + lc["log_tail"]
